@@ -324,7 +324,11 @@ static ares_status_t ares_hosts_file_add(ares_hosts_file_t  *hosts,
 
     if (!ares_htable_strvp_get(hosts->iphash, ipaddr, NULL)) {
       if (!ares_htable_strvp_insert(hosts->iphash, ipaddr, entry)) {
-        ares_hosts_entry_destroy(entry);
+        /* An entry we merged into is already owned by the tables, only a
+         * brand new entry is ours to destroy */
+        if (matchtype == ARES_MATCH_NONE) {
+          ares_hosts_entry_destroy(entry);
+        }
         return ARES_ENOMEM;
       }
       entry->refcnt++;
